@@ -700,14 +700,14 @@ fn generate(tier: Tier, rng: &mut Rng, em: &mut Emit) {
     let mut r0 = rng.fork();
     gen_small(&mut r0, em, 1, None);
     gen_small(&mut r0, em, 2, None);
-    gen_small(&mut r0, em, 3, Some(if quick { 400 } else { 20_000 }));
-    gen_small(&mut r0, em, 4, Some(if quick { 100 } else { 5_000 }));
+    gen_small(&mut r0, em, 3, Some(if quick { 400 } else { 3_000 }));
+    gen_small(&mut r0, em, 4, Some(if quick { 100 } else { 1_000 }));
     let mut r1 = rng.fork();
-    gen_chains(&mut r1, em, if quick { 2_500 } else { 40_000 });
+    gen_chains(&mut r1, em, if quick { 2_500 } else { 15_000 });
     let mut r2 = rng.fork();
-    gen_blockify(&mut r2, em, if quick { 2_500 } else { 40_000 });
+    gen_blockify(&mut r2, em, if quick { 2_500 } else { 15_000 });
     let mut r3 = rng.fork();
-    gen_random(&mut r3, em, if quick { 4_000 } else { 60_000 });
+    gen_random(&mut r3, em, if quick { 4_000 } else { 15_000 });
 }
 
 fn main() {
